@@ -5,7 +5,7 @@ use serde_json::json;
 use xplore::*;
 
 fn xs_alpha() -> Vec<f64> {
-    vec![0.0, exact::pred(1.0), 1.0, 1.0 + f64::EPSILON, 1.0 + 2.0 * f64::EPSILON, 2.0, -1.0, 1e6, exact::succ(1e6), exact::succ(3.0), 3.0]
+    vec![0.0, exact::pred(1.0), 1.0, 1.0 + f64::EPSILON, 1.0 + 2.0 * f64::EPSILON, 2.0, -1.0, exact::succ(-1.0), 1e6, exact::succ(1e6), exact::succ(3.0), 3.0]
 }
 const YS: [f64; 3] = [-1.0, 0.0, 2.5];
 
@@ -125,7 +125,7 @@ pub fn check(thorough: bool, _seed: u64) -> Check {
             check_list(&xs, &ys, cx)
         }),
         classes: vec![("out_of_order_abscissa", true), ("sub_epsilon_step", true), ("strictly_increasing_with_gaps>=eps", true), ("step_of_exactly_eps_or_2eps", true)],
-        bounds: json!({"knots": format!("every knot list of length 2..{maxn}: abscissae in {{0,pred(1),1,1+2^-52,1+2^-51,2,-1,1e6,succ(1e6),3,succ(3)}}^n x ordinates in {{-1,0,2.5}}^n"),
+        bounds: json!({"knots": format!("every knot list of length 2..{maxn}: abscissae in {{0,pred(1),1,1+2^-52,1+2^-51,2,-1,succ(-1),1e6,succ(1e6),3,succ(3)}}^n x ordinates in {{-1,0,2.5}}^n"),
             "queries": "for strictly increasing lists: finite part of A(ends), interval midpoints, every knot", "oracle": "running maximum; exact rational line; tolerance 2^6*2^-53*(|y_i|+|y_i+1|+|m|(|X_i|+|X_i+1|+|x|))"}),
     };
     let sizes: Vec<usize> = [8usize, 9, 16, 17, 33, 65].into_iter().chain(if thorough { vec![10usize, 32, 64, 129, 257, 1025] } else { vec![] }).collect();
